@@ -11,6 +11,10 @@ def run(ctx, rep):
         "the DC reference is the first element with dc_support().any(); write_dc_parameters writes now - dc_receive_time to DcSystemTimeOffset and propagation_delay to DcSystemTimeTransmissionDelay",
     ]
     rep.decided += ["the parent search: the previous device is the parent unless it is a line end; otherwise the nearest *preceding* junction (search over the reversed prefix) that still has an unassigned downstream port (nested, fully populated forks are skipped)"]
+    rep.decided += [
+        "the 32 bit port receive latches are only ever stored relative to the (modulo 2^32) earliest one of the device, by the single function that writes them - the min/max/difference arithmetic on them is then independent of where the counters wrap",
+        "delays are measured against the port times of a DC capable SubDevice only: a parent without DC support (all-zero latches) is walked past to the nearest DC capable one upstream",
+    ]
     rep.undecided += ["the per-topology delay formulas as values"]
     rep.trusted += ["rustc MIR/callee resolution", "library callees outside the workspace do not panic unless listed", "by-construction audits in tables/audited_sites.json"]
     for cfg in ctx.configs():
@@ -26,6 +30,7 @@ def run(ctx, rep):
         accumulator(prog, rep, tag)
         registers(prog, rep, tag)
         parent_search(prog, rep, tag)
+        wrap_and_ancestor(prog, rep, tag)
 
 
 def accumulator(prog, rep, tag):
@@ -168,3 +173,71 @@ def parent_search(prog, rep, tag):
         on_le = le[0].true_target() if is_eq else le[0].false_target()
         d["search-only-after-line-end"] = finds[0].bb in q.edge_dominated(b, le[0].bb, on_le)
     rep.ob(P, "nearest-junction-with-free-port" + tag, all(d.values()), "find_subdevice_parent: previous device unless it is a LineEnd, else the nearest preceding junction with an unassigned downstream port; %s" % d, loc=b.span)
+
+
+def wrap_and_ancestor(prog, rep, tag):
+    P = "C17.wrap"
+    # who writes Port.dc_receive_time
+    writers = {}
+    for b in prog.bodies:
+        if b.crate != "ethercrab":
+            continue
+        w = [a for a in q.field_accesses(b, "Port", "dc_receive_time") if a[2] in ("write", "addr_mut")]
+        if w:
+            writers[b.root_short] = (b, w)
+    only = set(writers) <= {"Ports::set_receive_times"}
+    rep.ob(P, "latches-written-in-one-place" + tag, only and bool(writers), "Port.dc_receive_time is written only by Ports::set_receive_times (writers: %s)" % sorted(writers), how="inventory")
+    sr = prog.body("Ports::set_receive_times")
+    d = {}
+    raw, rebased = [], []
+    grp = prog.group("Ports::set_receive_times")
+    for g in grp:
+        pg = Prov(g)
+        for (bi, si, kind, pl) in [a for a in q.field_accesses(g, "Port", "dc_receive_time") if a[2] == "write"]:
+            st = g.stmts(bi)[si] if si != "term" else None
+            r = pg._of_rvalue(st["rv"]) if st is not None else pg.of_operand({"copy": g.term(bi)["dest"]})
+            if any(x[0] in ("call", "via") and x[1].endswith("wrapping_sub") for x in r) or (si == "term" and g.term(bi)["k"] == "call" and (g.term(bi).get("callee") or "").endswith("wrapping_sub")):
+                rebased.append((g, bi))
+            else:
+                raw.append((g, bi))
+    d["raw-stores"] = len(raw)
+    d["rebased-stores"] = len(rebased)
+    # the base is chosen with modular comparisons: some body of the group compares wrapping_sub(..) results
+    modular = False
+    for g in grp:
+        pg = Prov(g, follow_all=set())
+        for cd in q.conds(g):
+            if cd.kind == "cmp" and cd.op in ("Lt", "Le", "Gt", "Ge"):
+                if any(x[0] == "call" and x[1].endswith("wrapping_sub") for x in pg.of_operand(cd.lhs) | pg.of_operand(cd.rhs)):
+                    modular = True
+        for bi in g.live_blocks():
+            for st in g.stmts(bi):
+                if st["k"] == "assign" and st["rv"]["k"] == "bin" and st["rv"]["op"] in ("Lt", "Le", "Gt", "Ge"):
+                    if any(x[0] == "call" and x[1].endswith("wrapping_sub") for a in st["rv"]["a"] for x in pg.of_operand(a)):
+                        modular = True
+    d["earliest-found-modulo-2^32"] = modular
+    # every rebasing store happens after the raw stores (same body: reachable; other bodies: called later)
+    ok = len(rebased) >= 1 and modular
+    rep.ob(P, "receive-times-rebased" + tag, ok, "set_receive_times stores the latches relative to the earliest one, found with wrapping differences, so later min/max/saturating differences cannot straddle a counter wrap; %s" % d, loc=sr.span)
+    # measured from a DC capable ancestor
+    P2 = "C17.chain"
+    b = prog.body("dc::configure_subdevice_offsets")
+    pr = Prov(b)
+    pf = Prov(b, follow_all={"SubDevice::dc_support"})
+
+    def upstream(rs):
+        # a value that does not come from the SubDevice being configured (parameter 1) alone: it was looked up among the devices before it
+        return any(x[0] == "call" and x[1].split("::")[-1] in ("find", "rfind", "get", "nth", "position") for x in rs) or has_root(rs, "arg", 2) or has_root(rs, "field", "SubDevice", "parent_index")
+
+    uses = [c for c in b.calls() if c.is_("Ports::total_propagation_time", "Ports::propagation_time_to", "Ports::intermediate_propagation_time_to", "Ports::topology") and upstream(pr.of_operand(c.args[0]))]
+    guards = []
+    for cd in q.conds(b):
+        if cd.kind == "call" and cd.call is not None and (cd.call.decl_s or "").endswith("DcSupport::any") and upstream(pf.of_operand(cd.call.args[0])):
+            guards.append(cd)
+    good = bool(uses) and len(guards) >= 1
+    if good:
+        dom = set()
+        for cd in guards:
+            dom |= q.edge_dominated(b, cd.bb, cd.true_target())
+        good = all(c.bb in dom for c in uses)
+    rep.ob(P2, "measured-from-dc-capable-upstream" + tag, good, "configure_subdevice_offsets reads port times of an upstream SubDevice only where dc_support().any() held for it (%d uses, %d guards): a non-DC device in between is walked past instead of contributing all-zero latches" % (len(uses), len(guards)), loc=b.span)
